@@ -179,10 +179,15 @@ def main():
     obligations, discharged, problems, axioms = proof_status(pid, prop.THEOREMS)
     if tier == "thorough" and not problems:
         # independent re-check of the compiled closure
-        p = run(["coqchk", "-silent", "-o", "-Q", os.path.join(COQ, "theories"), "MS", "-Q", os.path.join(COQ, "gen"), "MSgen",
-                 "MS.Properties." + pid], cwd=COQ, check=False, timeout=3000)
+        cmd = ["coqchk", "-silent", "-o", "-Q", os.path.join(COQ, "theories"), "MS", "-Q", os.path.join(COQ, "gen"), "MSgen",
+               "MS.Properties." + pid]
+        p = run(cmd, cwd=COQ, check=False, timeout=3000)
+        if p.returncode < 0 or (p.returncode != 0 and not p.stdout.strip()):
+            # killed by a signal / died without a word (seen once on a loaded machine): not a verdict, try again
+            log("coqchk exited with %s and no output; retrying once" % p.returncode)
+            p = run(cmd, cwd=COQ, check=False, timeout=3000)
         if p.returncode != 0:
-            problems.append("coqchk failed: " + p.stdout[-500:])
+            problems.append("coqchk failed (exit %s): %s" % (p.returncode, p.stdout[-500:]))
         else:
             m = re.search(r"Axioms:(.*?)(\n\S|\Z)", p.stdout, re.S)
             if m and "<none>" not in m.group(1):
